@@ -237,6 +237,7 @@ MUTANTS = [
     ('C13', 'revert-client-upgrade-offer', ('revert', '23ef94d'), 'C13.c'),
     ('C13', 'revert-headerless-framing', ('revert', '1f5826a'), 'C13.e'),
     ('C13', 'revert-bodiless-statuses', ('revert', 'bf60f93'), 'C13.e'),
+    ('C13', 'revert-stdin-fakesock', ('revert', '9fe97df'), 'C13.f'),
 ]
 
 # behaviour-preserving edits: the check of the property must stay silent
